@@ -82,6 +82,8 @@ class SlotImpl:
                 c.pop(int(ws[1]))
             elif op == 'clear':
                 c.clear()
+            elif op == 'delall':
+                del c[:]            # every declaration: the model's `clear`
             elif op == 'extend':
                 c.extend([E[int(x)] for x in ws[1:]])
             elif op == 'setitem':
@@ -118,7 +120,7 @@ def slot_ops(kind, n, univ):
         return ['assign none'] + [f'assign {x}' for x in range(univ)]
     W = range(-(n + 2), n + 3)
     ops = [f'append {x}' for x in range(univ)] + [f'insert {i} {x}' for i in W for x in range(univ)]
-    ops += [f'remove {x}' for x in range(univ)] + [f'pop {i}' for i in W] + ['clear']
+    ops += [f'remove {x}' for x in range(univ)] + [f'pop {i}' for i in W] + ['clear'] + (['delall'] if kind == 'set' else [])
     ops += [f'setitem {i} {x}' for i in W for x in range(univ)] + [f'delitem {i}' for i in W]
     ops += ['extend', 'extend 0', 'extend 0 1', 'extend 1 1 2', 'extend 2 0 2', 'extendself extend', 'extendself iadd']
     if kind == 'list':
@@ -161,7 +163,7 @@ def slot_level(ctx):
                 ctx.count(f'slot/{kind}-{typ}')
                 model_in.append(f'reset {kind}'); expect.append(None)
                 for l, r in zip(pre + [op], recs):
-                    model_in.append(l); expect.append((kind, typ, pre + [op], r))
+                    model_in.append('clear' if l == 'delall' else l); expect.append((kind, typ, pre + [op], r))
                 if recs[-1].split(' ')[2] != 'notifs=':
                     ctx.nontriv((kind, typ, st, op))
                 # slot-level oracle: replaying the notifications of the last call on the previous contents
@@ -339,7 +341,10 @@ def listener_pass(ctx):
         holder = res if on_resource else a
         for i, kd in enumerate(kinds):
             o = make(i, kd)
-            holder.listeners.append(o)
+            if i % 2:
+                o.observe(holder)
+            else:
+                holder.listeners.append(o)
             observers.append((o, kd))
         nchanges = 0
         for _ in range(rng.randint(2, 6)):
